@@ -28,7 +28,7 @@ package remote
 //   observation (one line): per message  r:<dom>=<ok|temp|perm>,… d:<srv>.<tls>.<requiretls param>.<reused>,…
 //
 //   op line:  C05 conc <cfg> <dom0> <dom1> <script> <msgs>        OVERLAPPING deliveries on one target
-//     script = <gate s|t|m><c|d><k><victim>: the first k (2-3) messages are deliveries that overlap in time: they are
+//     script = <gate s|t|m><c|d><k><victim>: the first k (1-3) messages are deliveries that overlap in time: they are
 //            started one after the other while a lookup for domain 0 is held back (s: the MTA-STS policy fetch, t: the
 //            TLSA answers, m: the MX answer), then the context of delivery <victim> ends (c: cancelled, d: deadline
 //            exceeded) while the lookups are in flight (9: nobody), the victim's AddRcpt returns, the lookups are
@@ -257,7 +257,7 @@ func c05ParseOp(op string) (c05Hist, error) {
 			return h, errors.New("bad script")
 		}
 		h.conc = &c05Conc{gate: sc[0], kind: sc[1], k: int(sc[2] - '0'), victim: int(sc[3] - '0')}
-		if h.conc.k < 2 || h.conc.k > 3 || !(h.conc.victim < h.conc.k || h.conc.victim == 9) || h.conc.victim < 0 {
+		if h.conc.k < 1 || h.conc.k > 3 || !(h.conc.victim < h.conc.k || h.conc.victim == 9) || h.conc.victim < 0 {
 			return h, errors.New("bad script")
 		}
 		t = append(t[:5:5], t[6])
@@ -1754,6 +1754,12 @@ func c05GenConc(r *vh.Rng) c05Hist {
 	default:
 		c.victim = r.Intn(c.k)
 	}
+	// a single cancelled delivery, then messages one after the other: what it leaves behind (pool, anything a
+	// policy module remembers) must not weaken the policy in force for them
+	alone := c.victim == 0 && c.gate != 't' && r.Chance(25)
+	if alone {
+		c.k = 1
+	}
 	h.conc = c
 	if c.gate == 's' {
 		if r.Chance(85) {
@@ -1800,8 +1806,14 @@ func c05GenConc(r *vh.Rng) c05Hist {
 			h.msgs[c.victim].tlsNo = false
 		}
 	}
-	if (c.victim == 9 || c.gate != 't') && r.Chance(45) {
+	if (c.victim == 9 || c.gate != 't') && (alone || r.Chance(45)) {
 		h.msgs = append(h.msgs, c05GenMsg(r))
+		if alone && r.Chance(70) {
+			h.msgs[len(h.msgs)-1].rcpts = []int{0}
+		}
+		if alone && r.Chance(40) {
+			h.msgs = append(h.msgs, c05GenMsg(r))
+		}
 	}
 	if !c05ConcOK(h) {
 		panic("c05GenConc: ill-formed batch " + h.Op())
@@ -1928,6 +1940,12 @@ func c05FixedOps() []string {
 		"C05 conc 1000.-.10.10 0e:1.1.o.u.1.0.0.n.0.0 0a:3.1.o.v.0.0.0.n.0.0 sd30 000:0/000:0,1/000:0/000:0",
 		"C05 conc 1011.21.11.10 1e:1.1.s.v.0.1.1.n.0.0;2.1.o.v.1.1.1.n.1.0 0a:3.1.o.v.0.0.0.n.0.0 sc32 000:0/100:0/000:0/000:0",
 		"C05 conc 1000.-.10.10 0e:1.1.o.v.0.0.0.n.0.0 0a:3.1.o.v.0.0.0.n.0.0 sc29 000:0/000:0/000:0",
+		// … the delivery that started LAST is the one that is cancelled / times out
+		"C05 conc 1000.-.10.10 0e:1.1.o.v.0.0.0.n.0.0 0a:3.1.o.v.0.0.0.n.0.0 sc21 000:0/000:0",
+		"C05 conc 1000.20.10.10 0e:1.1.o.u.1.0.0.n.0.0 0a:3.1.o.v.0.0.0.n.0.0 sd32 000:0/000:0/000:0/000:0",
+		// a cancelled delivery alone, then ordinary messages one after the other
+		"C05 conc 1000.-.10.10 0e:1.1.o.v.0.0.0.n.0.0 0a:3.1.o.v.0.0.0.n.0.0 sc10 000:0/000:0/000:0",
+		"C05 conc 1010.21.11.10 0e:1.1.o.u.1.1.1.e.1.0;2.1.o.v.0.1.1.n.1.0 0a:3.1.o.v.0.0.0.n.0.0 sd10 100:0/000:0,1/100:0",
 		// … while the TLSA answers / the MX answer are held back (DANE with a matching / mismatching RRset)
 		"C05 conc 1010.-.10.10 0e:1.1.o.v.1.1.1.e.0.0 0a:3.1.o.v.0.0.0.n.0.0 tc20 000:0/000:0",
 		"C05 conc 0010.20.10.10 0a:1.1.o.u.0.1.1.m.0.0;2.1.o.u.0.1.1.e.0.0 0a:3.1.o.v.0.0.0.n.0.0 td31 000:0/000:0/000:0,1",
@@ -2060,7 +2078,7 @@ func c05OneCase(t *testing.T, out *vh.Out, pki *c05PKI, h c05Hist, rng *vh.Rng, 
 	for mi, m := range h.msgs {
 		if obs[mi].victim {
 			for i := range m.rcpts {
-				out.Stat("c05.conc.victim.rcpt=" + obs[mi].rcpt[i])
+				out.Stat(fmt.Sprintf("c05.conc.victim.gate=%c.rcpt=%s", h.conc.gate, obs[mi].rcpt[i]))
 			}
 			continue
 		}
